@@ -46,6 +46,7 @@ def cases(ctx):
         yield {"kind": "cli-dir", "seed": rng.getrandbits(32), "hashseeds": [rng.randint(0, 2 ** 31) for _ in range(ctx.pick(3, 5))]}
     for i in range(ctx.per_shard(ctx.pick(60, 3000))):
         yield {"kind": "nosalt", "seed": rng.getrandbits(32), "feats": rng.choice(subs)}
+    yield {"kind": "nosalt-many", "seed": rng.getrandbits(32), "n": ctx.per_shard(ctx.pick(500, 20000))}
     for i in range(ctx.per_shard(ctx.pick(2, 40))):
         yield {"kind": "manyfiles", "seed": rng.getrandbits(32), "n": rng.choice([40, 70, 130])}
 
@@ -71,6 +72,11 @@ def make_target(seed, feats):
         # an md5-crypt string whose salt field is over-long (pasted / damaged): netconan clamps it itself
         text.append({"kind": "secret", "form": "cisco-enable-secret-5", "mode": "replace", "cls": "md5",
                      "line": "enable secret 5 $1$%s$%s" % (S._rand(rng, S._H64, 9, 14), S._rand(rng, S._H64, 22, 22)),
+                     "parts": [], "lead": "", "trail": "", "eol": "\n"})
+    if rng.random() < 0.5:
+        # a damaged md5-crypt string: empty salt field and one separator too many
+        text.append({"kind": "secret", "form": "cisco-enable-secret-5", "mode": "replace", "cls": "md5",
+                     "line": "enable secret 5 $1$$%s$%s" % (S._rand(rng, S._H64, 1, 6), S._rand(rng, S._H64, 8, 22)),
                      "parts": [], "lead": "", "trail": "", "eol": "\n"})
     src = M.render_text(text)
     return rng, opts, text, src
@@ -166,6 +172,8 @@ def check_case(ctx, case):
             return _cli_dir(ctx, case, nc)
         if k == "manyfiles":
             return _manyfiles(ctx, case, nc)
+        if k == "nosalt-many":
+            return _nosalt_many(ctx, case, nc)
         raise HarnessError("unknown kind")
     finally:
         cur = nc.rw.default_reserved_words
@@ -387,6 +395,64 @@ def _cli_dir(ctx, case, nc):
                           % (outs[0][0], hs, " (into a directory holding an earlier run's files)" if k % 2 else "", n, first_diff(a, b)))
             return
     ctx.distinct((case["seed"], "cli-dir"))
+
+
+def _nosalt_many(ctx, case, nc):
+    """Many runs of main() without -s: EVERY generated salt is reported, and giving it back the way the message
+    invites to - as the value of -s - is accepted and reproduces the output (a generated salt is drawn from a
+    space of values; a few of them being unusable on the command line shows only in many draws)."""
+    import contextlib
+
+    rng = random.Random(case["seed"])
+    text = "hostname rtr1\n ip address 11.22.33.44 255.255.255.0\n ipv6 address 2001:db8::1/64\n set secret \"$9$SRhrMX-dsgaGVwaU\"\n"
+    cap = _Cap()
+    root = logging.getLogger()
+    with tempfile.TemporaryDirectory(dir=os.path.join(load.VERIF, ".work")) as d:
+        src = os.path.join(d, "in.cfg")
+        with open(src, "w") as f:
+            f.write(text)
+        for i in range(case["n"]):
+            if ctx.expired():
+                ctx.count("stopped_by_time_budget")
+                break
+            o1, o2 = os.path.join(d, "o1.cfg"), os.path.join(d, "o2.cfg")
+            cap.recs = []
+            root.addHandler(cap)
+            try:
+                with contextlib.redirect_stderr(io.StringIO()), contextlib.redirect_stdout(io.StringIO()):
+                    nc.cli.main(["-i", src, "-o", o1, "-a", "-p"])
+            finally:
+                root.removeHandler(cap)
+            ctx.ev()
+            ctx.count("saltless_runs")
+            m = None
+            for r in cap.recs:
+                m = m or re.search(r'salt[^"\n]*"([^"\n]+)"', r.getMessage())
+            if not m:
+                ctx.violation(case, "generated-salt-not-reported", "main() without -s logged no WARNING naming the salt: %r" % [r.getMessage()[:80] for r in cap.recs][:3])
+                return
+            salt = m.group(1)
+            ctx.setadd("generated_salt_first_characters", salt[:1])
+            try:
+                with contextlib.redirect_stderr(io.StringIO()), contextlib.redirect_stdout(io.StringIO()):
+                    nc.cli.main(["-i", src, "-o", o2, "-a", "-p", "-s", salt])
+                ok = True
+            except SystemExit as e:
+                ok = e.code in (0, None)
+            ctx.count("output_comparisons")
+            with open(o1, "rb") as f:
+                a = f.read()
+            b = None
+            if ok and os.path.exists(o2):
+                with open(o2, "rb") as f:
+                    b = f.read()
+            if a != b:
+                ctx.violation(case, "reported-salt-does-not-reproduce:cli" if b is not None else "reported-salt-not-accepted-as-option-value",
+                              "run %d: generated salt %r given back as -s %s: %s" % (i, salt, salt, "different output" if b is not None else "rejected by the command line"))
+                return
+            os.remove(o1)
+            os.remove(o2)
+    ctx.distinct((case["seed"], "nosalt-many"))
 
 
 def _manyfiles(ctx, case, nc):
